@@ -35,7 +35,7 @@ def binsStr (ps : PSlice) : String :=
 def splitAnnot (ws : List String) : List String × List String :=
   (ws.takeWhile (· ≠ "|"), (ws.dropWhile (· ≠ "|")).drop 1)
 
-def stepK (k : Kad) (op : List String) (annot : List String) : Kad × String :=
+def stepK0 (k : Kad) (op : List String) (annot : List String) : Kad × String :=
   match op with
   | ["add", l] =>
     match parseList l with
@@ -103,6 +103,33 @@ def stepK (k : Kad) (op : List String) (annot : List String) : Kad × String :=
       if n ≤ 1000 then (k, joinAddrs (k.closestN t n r sk)) else (k, "bad-op")
     | _, _, _, _ => (k, "bad-op")
   | _ => (k, "bad-op")
+
+def isEventKind (s : String) : Bool :=
+  s = "conn" || s = "out" || s = "disc" || s = "force" || s = "reach" || s = "radius"
+
+/-- `racerecalc <n> <ev0> <ev1> …` (harness/kadh/race.go): the real Kad runs `ev0` with its depth
+recalculation parked at the n-th filter call while `ev1 …` are fired from a second goroutine.
+`depthMu` serialises the recalculations, so the quiescent result is the sequential composition
+`ev0; ev1; …` — which is all the model does (the park position plays no role here).  The events
+are ordinary event op lines with `:` instead of blanks. -/
+def raceRecalc (k : Kad) (n : String) (toks : List String) : Kad × String :=
+  match Driver.parseNat n with
+  | none => (k, "bad-op")
+  | some nn =>
+    if nn < 1 || nn > 999 || toString nn ≠ n || toks.isEmpty || toks.length > 8 then (k, "bad-op") else
+    let evs := toks.map (fun t => t.splitOn ":")
+    if evs.any (fun ev => !(isEventKind (ev.headD ""))) || (evs.headD []).headD "" = "force" then (k, "bad-op") else
+    let (k', outs) := evs.foldl (fun (acc : Kad × List String) ev =>
+      let (k1, o) := stepK0 acc.1 ev []
+      (k1, acc.2 ++ [o])) (k, [])
+    if outs.contains "bad-op" then (k, "bad-op")
+    else if k.bootMode then (k, "norace")
+    else (k', ",".intercalate outs ++ s!" d={k'.depth}")
+
+def stepK (k : Kad) (op : List String) (annot : List String) : Kad × String :=
+  match op with
+  | "racerecalc" :: n :: toks => raceRecalc k n toks
+  | _ => stepK0 k op annot
 
 def step (st : Option Kad) (ws : List String) : Option Kad × String :=
   let (op, annot) := splitAnnot ws
